@@ -68,7 +68,7 @@ def mu2 (c : Cfg) : Nat :=
 /-- the shape of the event queue (it does not depend on the delivery flags: `evK`) -/
 structure Shape (c : Cfg) : Prop where
   /-- a top-level event is alone, and no join is on record -/
-  top : ∀ p ∈ evK c, evStack p.2 = [] → evK c = [p] ∧ c.joins = []
+  top : ∀ p ∈ evK c, evStack p.2 = [] → (∀ p' ∈ evK c, p'.1 = p.1) ∧ c.joins = []
   /-- branch events belong to one fan-out attempt, one event per branch -/
   same : ∀ p1 ∈ evK c, ∀ p2 ∈ evK c, ∀ f1 f2, evStack p1.2 = [f1] → evStack p2.2 = [f2] →
     f1.jid = f2.jid ∧ f1.branches = f2.branches ∧ f1.rest = f2.rest ∧ (f1.idx = f2.idx → p1.1 = p2.1)
@@ -85,11 +85,13 @@ structure JInv (c : Cfg) : Prop where
   fnd : ∀ j ∈ c.joins, j.filled.Nodup
   fheld : ∀ j ∈ c.joins, ∀ i ∈ j.filled, ∃ x, (i, x) ∈ j.heldEv
   held : ∀ j ∈ c.joins, ∀ q ∈ j.heldEv,
-    q.1 ∈ j.filled ∧ ∃ p ∈ evK c, p.1 = q.2 ∧ kIdx p.2 = q.1 ∧ lastVisit p.2 = true
+    q.1 ∈ j.filled ∧ ∃ p ∈ evK c, p.1 = q.2 ∧ kIdx p.2 = q.1 ∧ lastVisit p.2 = true ∧ (isTaskKind p.2 = true → p.1 ∈ c.sent)
   heldsent : ∀ j ∈ c.joins, ∀ q ∈ j.heldEv, q.2 ∈ c.sent → q.2 ∈ j.heldRp
   rpheld : ∀ j ∈ c.joins, ∀ x ∈ j.heldRp, ∃ q ∈ j.heldEv, q.2 = x
   /-- a held event waits for nothing else -/
   ht : ∀ x ∈ heldE c.joins, x ∉ c.timers ∧ x ∉ c.pending
+  /-- a held reply is not also retained as an orphan -/
+  hro : ∀ x ∈ heldR c.joins, x ∉ c.orphans
 
 /-- conserved: the terminal notification is out exactly when nothing is left, `N` Task visits in all, no reply without
 its event -/
@@ -113,6 +115,50 @@ theorem Shape.congr {c d : Cfg} (h : Shape c) (h1 : evK d = evK c) (h2 : c.joins
   · rw [h1]; exact h.same
   · rw [h1]; exact h.cover
   · rw [h1, h3]; exact h.jlt
+
+/-- one event of the queue is replaced by another with the same Branch stack (the next visit of the same sequence) -/
+theorem Shape.replace {c d : Cfg} (h : Shape c) (hids : ((evK c).map (·.1)).Nodup) {x y : Nat × EvKind} (hx : x ∈ evK c)
+    (hmem : ∀ p, p ∈ evK d ↔ (p ∈ evK c ∧ p ≠ x) ∨ p = y) (hstk : evStack y.2 = evStack x.2)
+    (hj : d.joins = c.joins) (hnj : d.nextJ = c.nextJ) : Shape d := by
+  have uniq : ∀ p ∈ evK c, ∀ q ∈ evK c, p.1 = q.1 → p = q := fun p hp q hq hpq => eq_of_nodup_map (·.1) hids hp hq hpq
+  constructor
+  · intro p hp hs
+    rcases (hmem p).mp hp with ⟨hpc, hpx⟩ | rfl
+    · have ht := h.top p hpc hs
+      exact absurd (uniq x hx p hpc (ht.1 x hx)).symm hpx
+    · have ht := h.top x hx (hstk ▸ hs)
+      refine ⟨?_, hj ▸ ht.2⟩
+      intro p' hp'
+      rcases (hmem p').mp hp' with ⟨hpc, hpx⟩ | rfl
+      · exact absurd (uniq p' hpc x hx (ht.1 p' hpc)) hpx
+      · rfl
+  · intro p1 hp1 p2 hp2 f1 f2 hf1 hf2
+    rcases (hmem p1).mp hp1 with ⟨hp1c, hp1x⟩ | rfl <;> rcases (hmem p2).mp hp2 with ⟨hp2c, hp2x⟩ | rfl
+    · exact h.same p1 hp1c p2 hp2c f1 f2 hf1 hf2
+    · have := h.same p1 hp1c x hx f1 f2 hf1 (hstk ▸ hf2)
+      refine ⟨this.1, this.2.1, this.2.2.1, fun hi => ?_⟩
+      exact absurd (uniq p1 hp1c x hx (this.2.2.2 hi)) hp1x
+    · have := h.same x hx p2 hp2c f1 f2 (hstk ▸ hf1) hf2
+      refine ⟨this.1, this.2.1, this.2.2.1, fun hi => ?_⟩
+      exact absurd (uniq x hx p2 hp2c (this.2.2.2 hi)).symm hp2x
+    · rw [hf1] at hf2; cases hf2
+      exact ⟨rfl, rfl, rfl, fun _ => rfl⟩
+  · intro p hp f hf i hi
+    have key : ∃ p0 ∈ evK c, evStack p0.2 = [f] := by
+      rcases (hmem p).mp hp with ⟨hpc, _⟩ | rfl
+      · exact ⟨p, hpc, hf⟩
+      · exact ⟨x, hx, hstk ▸ hf⟩
+    obtain ⟨p0, hp0, hf0⟩ := key
+    obtain ⟨p', hp', f', hf', hi'⟩ := h.cover p0 hp0 f hf0 i hi
+    by_cases hpx : p' = x
+    · subst hpx
+      exact ⟨y, (hmem y).mpr (Or.inr rfl), f', hstk ▸ hf', hi'⟩
+    · exact ⟨p', (hmem p').mpr (Or.inl ⟨hp', hpx⟩), f', hf', hi'⟩
+  · intro p hp f hf
+    rw [hnj]
+    rcases (hmem p).mp hp with ⟨hpc, _⟩ | rfl
+    · exact h.jlt p hpc f hf
+    · exact h.jlt x hx f (hstk ▸ hf)
 
 theorem Cons2.congr {N : Nat} {c d : Cfg} (h : Cons2 N c) (h1 : evK d = evK c) (h2 : rpC d = rpC c) (h3 : d.sent = c.sent)
     (h4 : d.notes = c.notes) : Cons2 N d := by
